@@ -212,11 +212,86 @@ Proof.
   apply revs_model_holds, H1.
 Qed.
 
+(* ------------------------------------------------------------------ dense lists *)
+Lemma members_dense st ms : Forall in_range ms -> members (bits (dense_block (st, ms))) = complement ms.
+Proof.
+  intros Hms. unfold members, complement. apply filter_ext_in'. intros j Hj. apply in_z1024 in Hj.
+  unfold dense_block. cbn [fst snd block_reverse bits]. rewrite member_brev by (try apply mk_block_length; exact Hj).
+  now rewrite member_mk.
+Qed.
+Lemma dense_block_length x : length (bits (dense_block x)) = 16%nat.
+Proof. unfold dense_block. cbn [block_reverse bits]. rewrite brev_length. apply mk_block_length. Qed.
+Lemma zlen_dir_members (rv : bool) b : zlen (if rv then rev (members b) else members b) <= 1024.
+Proof. destruct rv; [rewrite zlen_rev|]; apply zlen_members_le. Qed.
+
+Lemma big_iter_dense rv x : Forall in_range (snd x) ->
+  big_iter rv (dense_block x) 1024 = if rv then rev (dense_vals x) else dense_vals x.
+Proof.
+  destruct x as [st ms]. cbn [snd]. intros Hms. unfold big_iter, dense_vals. cbn [fst snd].
+  pose proof (dense_block_length (st, ms)) as Hl. pose proof (members_dense st ms Hms) as Hm.
+  assert (Hst : start (dense_block (st, ms)) = st) by reflexivity. rewrite Hst.
+  destruct rv; [rewrite iter1024_rev by exact Hl|rewrite iter1024_fwd by exact Hl];
+    rewrite take_all by (try rewrite zlen_rev; apply zlen_members_le); rewrite Hm; try rewrite <- map_rev;
+    apply map_ext; intros m; unfold idz; lia.
+Qed.
+Lemma tip_iter_dense rv x : 0 <= fst x <= MAXTIP -> Forall in_range (snd x) ->
+  tip_iter rv (dense_block x) 1024 = if rv then rev (dense_vals x) else dense_vals x.
+Proof.
+  destruct x as [st ms]. cbn [fst snd]. intros Hs Hms. rewrite maxtip_val in Hs. unfold tip_iter, dense_vals. cbn [fst snd].
+  pose proof (dense_block_length (st, ms)) as Hl. pose proof (members_dense st ms Hms) as Hm.
+  assert (Hst : start (dense_block (st, ms)) = st) by reflexivity. rewrite Hst.
+  assert (Hin : forall m, In m (complement ms) -> in_range m) by (intros m H; apply in_complement in H; tauto).
+  destruct rv; [rewrite iter1024_rev by exact Hl|rewrite iter1024_fwd by exact Hl];
+    rewrite take_all by (try rewrite zlen_rev; apply zlen_members_le); rewrite Hm; try rewrite <- map_rev;
+    apply map_ext_in; intros m Hmm0; assert (Hmm : in_range m) by (first [apply Hin; exact Hmm0|apply Hin; apply in_rev; exact Hmm0]); unfold in_range in Hmm;
+    unfold u32; rewrite (Z.mod_small (st * 1024)) by lia; rewrite Z.mod_small by lia; lia.
+Qed.
+
+Lemma tipblk_ok_spec x : tipblk_ok x = true -> 0 <= fst x <= MAXTIP /\ Forall in_range (snd x).
+Proof.
+  unfold tipblk_ok. intros H. apply andb_prop in H. destruct H as [H H3]. apply andb_prop in H. destruct H as [H1 H2].
+  apply Z.leb_le in H1. apply Z.leb_le in H2. split; [lia|now apply pos_ok_range].
+Qed.
+
+Lemma dense_concat (it : bool -> block -> Z -> list Z) rv bl :
+  (forall x, In x bl -> it rv (dense_block x) 1024 = if rv then rev (dense_vals x) else dense_vals x) ->
+  flat_map (fun b => it rv b 1024) (map dense_block bl) = concat (map (fun x => if rv then rev (dense_vals x) else dense_vals x) bl).
+Proof.
+  intros H. rewrite flat_map_map', concat_map_flat_map. apply flat_map_ext_in. exact H.
+Qed.
+
+Theorem dense_case_sound tip bl n fw rv : case_matches (CDense tip bl n fw rv) = true -> case_holds (CDense tip bl n fw rv) = true.
+Proof.
+  cbn [case_matches case_holds]. intros H. destruct (n <? 0) eqn:En; [reflexivity|]. apply Z.ltb_ge in En. cbn [orb].
+  replace (map (fun x => frev (dense_vals x)) bl) with (map (fun x => rev (dense_vals x)) bl)
+    by (apply map_ext; intros x; symmetry; apply frev_rev).
+  replace (map (fun x => frev (dense_vals x)) (rev bl)) with (map (fun x => rev (dense_vals x)) (rev bl))
+    by (apply map_ext; intros x; symmetry; apply frev_rev).
+  assert (Hlen : forall b, In b (map dense_block bl) -> length (bits b) = 16%nat).
+  { intros b Hb. apply in_map_iff in Hb. destruct Hb as (x & <- & _). apply dense_block_length. }
+  destruct tip.
+  - apply andb_prop in H. destruct H as [H H3]. apply andb_prop in H. destruct H as [H1 H2].
+    apply sobs_eqb_eq in H2. apply sobs_eqb_eq in H3. subst fw rv. rewrite forallb_forall in H1.
+    rewrite !tips_concat by (try exact En; apply Forall_forall; exact Hlen). cbn [summ_of].
+    rewrite <- map_rev.
+    rewrite (dense_concat tip_iter false bl), (dense_concat tip_iter true (rev bl)).
+    + rewrite !sobs_eqb_refl. cbn [andb]. apply orb_true_r.
+    + intros x Hx. apply in_rev in Hx. destruct (tipblk_ok_spec x (H1 x Hx)). now apply tip_iter_dense.
+    + intros x Hx. destruct (tipblk_ok_spec x (H1 x Hx)). now apply tip_iter_dense.
+  - apply andb_prop in H. destruct H as [H H3]. apply andb_prop in H. destruct H as [H1 H2].
+    apply sobs_eqb_eq in H2. apply sobs_eqb_eq in H3. subst fw rv. rewrite forallb_forall in H1.
+    rewrite !bigs_concat by (try exact En; apply Forall_forall; exact Hlen). cbn [summ_of].
+    rewrite (dense_concat big_iter false bl), (dense_concat big_iter true bl).
+    + rewrite !sobs_eqb_refl. reflexivity.
+    + intros x Hx. apply big_iter_dense. apply blk_ok_range. now apply H1.
+    + intros x Hx. apply big_iter_dense. apply blk_ok_range. now apply H1.
+Qed.
+
 (* ------------------------------------------------------------------ every kind of case *)
 Theorem matches_holds c : case_matches c = true -> case_holds c = true.
 Proof.
   destruct c; [apply marshal_case_sound|apply unm_case_sound|apply big_case_sound|apply tip_case_sound|apply bigs_case_sound|apply tips_case_sound
-              |apply rev_case_sound|apply revs_case_sound].
+              |apply rev_case_sound|apply revs_case_sound|apply dense_case_sound].
 Qed.
 
 (* ------------------------------------------------------------------ grouped as C09_Props.v states it *)
